@@ -31,7 +31,7 @@ def obligations():
                      params={"n_atoms": n, "layout": "axis_major"}))
         o.append(Obl(f"C06.centring.n{n}", "py", H, "centring", ["center_generic.h:inplace_center_and_trace_atom_major"], f"2 frames x {n} atoms", "coordinates minus their mean; trace = sum |x - mean|^2", 120, params={"n_atoms": n}))
     o.append(Obl("C06.rotation_apply", "py", H, "rotation_apply", ["rotation_generic.h:rot_atom_major", "rot_msd_atom_major"], "3 atoms, symbolic rotation entries", "a' = a . Rot; mean squared deviation after rotating", 120, params={"n_atoms": 3}))
-    for s in ("all", "same", "different", "explicit_all", "permutation", "self", "self_sel", "traces"):
+    for s in ("all", "same", "different", "explicit_all", "permutation", "self", "self_sel", "traces", "different_unsorted"):
         o.append(Obl(f"C06.superpose.{s}", "py", H, "superpose_wrapper", ["mdtraj.core.trajectory.Trajectory.superpose"], "2 frames x 4 atoms against frame 1 of a 2-frame reference; atom selections / aliasing: " + s + " (explicit_all: an index array naming every atom; self: the reference is the trajectory itself; traces: cached centring traces present)",
                      "centred selections, traces, displaced copy and final offset onto the reference frame's ORIGINAL centroid; reference untouched; cached traces dropped", 300, params={"sel": s}))
     o.append(Obl("C06.degenerate_rotation", "py", H, "degenerate_branch", ["theobald_rmsd.cpp:msdFromMandG (adjugate rows 0..3, identity branch)", "cofactor4"], "diagonal inner-product matrices M = diag(m0, m1, m2), simple largest eigenvalue",
